@@ -274,3 +274,80 @@ theorem text_methods_shape : Gen.TEXT_METHODS =
      ("solve_with_config_inner", "self.solve_no_metadata_inner", "A")] := by decide
 
 end Ezpz.Text
+
+namespace Ezpz.Text
+open Ezpz Ezpz.Cli
+
+variable {α : Type} [Add α] [Sub α] [Mul α] [Div α] [Neg α] [OfScientific α]
+  [LT α] [DecidableLT α] [LE α] [DecidableLE α] [Transc α]
+
+/-- Library level, all requests at priority 0: a failure is not a panic when the LU oracle of call 0
+(and the SVD oracle of call 0, if the analysis is requested) is total. -/
+theorem lib_failure_noPanic (cs : ConstraintSystem α) (cfg : Config α) (solve : LinSolve α)
+    (svd : Option (Svd α)) (hs : LinSolveTotal (solve 0) cs.vars.variables.length)
+    (ha : ∀ s, svd = some s → SvdTotal (s 0) cs.vars.variables.length) (f : Failure α)
+    (h : solveWithPriority (requests cs) cs.vars.variables cfg solve svd = .error f) :
+    f.error.isPanic = false := by
+  by_cases hne : cs.constraints = []
+  · have hr : requests cs = [] := by simp [requests, hne]
+    rw [hr] at h
+    simp [solveWithPriority] at h
+  · rw [text_solve_one_level cs cfg solve svd hne] at h
+    refine solveInner_noPanic _ _ _ _ _ hs ?_ f h
+    intro s' hs'
+    cases svd with
+    | none => simp at hs'
+    | some s =>
+      simp only [Option.map_some, Option.some.injEq] at hs'
+      subst hs'
+      exact ha s rfl
+
+/-- **None of the four text solve methods panics** (C06 / C09 for the text front-end's solve
+methods): for a system built from the problem (`toConstraintSystem p = .ok cs`) and total LU / SVD
+oracles at call 0, `solve_no_metadata`, `solve_with_config`, `solve` and `solve_with_config_analysis`
+all return `Ok` or `Err` — never `none`. -/
+theorem text_methods_never_panic (p : Problem α) (cs : ConstraintSystem α) (cfg : Config α)
+    (solve : LinSolve α) (svd : Svd α) (hb : toConstraintSystem p = .ok cs)
+    (hs : LinSolveTotal (solve 0) cs.vars.variables.length)
+    (ha : SvdTotal (svd 0) cs.vars.variables.length) :
+    solveNoMetadata cs cfg solve ≠ none ∧ solveWithConfig p cs cfg solve ≠ none ∧
+    solveDefault p cs solve ≠ none ∧ solveWithConfigAnalysis p cs cfg solve svd ≠ none := by
+  have key : ∀ (cfg : Config α) (sv : Option (Svd α)),
+      (∀ s, sv = some s → SvdTotal (s 0) cs.vars.variables.length) →
+      solveWithConfigInner p cs cfg solve sv ≠ none := by
+    intro cfg sv hsv
+    unfold solveWithConfigInner solveNoMetadataInner liftLib
+    cases hl : solveWithPriority (requests cs) cs.vars.variables cfg solve sv with
+    | error f =>
+      have := lib_failure_noPanic cs cfg solve sv hs hsv f hl
+      simp [this]
+    | ok o =>
+      simp only
+      have hlen : o.finalValues.length = cs.vars.variables.length :=
+        C07.final_length (requests cs) cs.vars.variables cfg solve sv o hl
+      obtain ⟨l, hl'⟩ := labelOutcome_total p o.finalValues
+        (by rw [hlen, built_vars_length p cs hb]; exact Nat.le_refl _)
+      simp [hl']
+  have hnone : ∀ s : Svd α, (none : Option (Svd α)) = some s →
+      SvdTotal (s 0) cs.vars.variables.length := by intro s h; cases h
+  have hsome : ∀ s : Svd α, some svd = some s → SvdTotal (s 0) cs.vars.variables.length := by
+    intro s h; cases h; exact ha
+  refine ⟨?_, ?_, ?_, key cfg (some svd) hsome⟩
+  · unfold solveNoMetadata liftLib
+    cases hl : solveWithPriority (requests cs) cs.vars.variables cfg solve none with
+    | error f =>
+      have := lib_failure_noPanic cs cfg solve none hs hnone f hl
+      simp [this]
+    | ok o => simp
+  · have := key cfg none hnone
+    unfold solveWithConfig
+    cases h : solveWithConfigInner p cs cfg solve none with
+    | none => exact absurd h this
+    | some r => simp
+  · have := key Config.default none hnone
+    unfold solveDefault solveWithConfig
+    cases h : solveWithConfigInner p cs Config.default solve none with
+    | none => exact absurd h this
+    | some r => simp
+
+end Ezpz.Text
